@@ -174,6 +174,12 @@ static Built build(const CaseSpec& c)
         p.setInterfaceId(s.ifid);
         p.setVendorId(s.vid);
         p.setCommonFlags(s.flags);
+        // the packet's own segment-type attribute (a separate member, what a decoder-side object reports for a forwarded segment)
+        // follows the segmentation bits of the flags; with junk it is set on every packet that carries no such bits as well
+        if (s.flags & ref::FLAG_SEG_MASK)
+            p.setSegmentType(static_cast<MessageHeader::SegmentType>((s.flags & ref::FLAG_SEG_MASK) >> 2));
+        else if (c.junk == 2)
+            p.setSegmentType(static_cast<MessageHeader::SegmentType>(1 + i % 3));
         if (s.proto >= 0)
         {
             Payload pl = protoPayload(s.proto);
@@ -847,10 +853,26 @@ static void runTask(W& w, const std::string& prop, const Domain& d, const Task& 
         for (auto v : vids) { shape(t.first); for (auto& p : c.b) p.vid = v; exec(); }
         for (auto v : flags) { shape(t.first); for (auto& p : c.b) p.flags = v; exec(); }
         for (auto v : flags) { shape(t.first); c.b[0].flags = v; exec(); }
+        // segmentation bits in the common flags of ONE input packet at every position of the batch (a packet that was reassembled
+        // by a decoder, or forwarded segment by segment, keeps them): they say nothing about how THIS encoder lays the packet out
+        for (uint8_t v : {(uint8_t) 0x04, (uint8_t) 0x08, (uint8_t) 0x0C, (uint8_t) 0x2D})
+            for (size_t i = 1; ; ++i)
+            {
+                shape(t.first);
+                if (i >= c.b.size())
+                    break;
+                c.b[i].flags = v;
+                exec();
+                if (i + 1 < c.b.size())
+                {
+                    c.b[i - 1].flags = 0x04;   // ... and a "first segment" before it
+                    exec();
+                }
+            }
         for (auto v : vers) { shape(t.first); c.ver = v; exec(); }
         for (auto v : devs) { shape(t.first); c.dev = v; exec(); }
         for (auto v : strs) { shape(t.first); c.str = v; exec(); }
-        for (int jk = 0; jk < 2; ++jk) { shape(t.first); c.junk = jk; exec(); }
+        for (int jk = 0; jk < 3; ++jk) { shape(t.first); c.junk = jk; exec(); }   // 2: also the segment-type attribute of every packet is set
     }
     else if (t.part == 'D')
     {
@@ -966,6 +988,10 @@ static CaseSpec encodeArg(int k)
                   // type without a payload kind - the frame header must announce 3 all the same)
             c.mn = 0; c.mx = 1500; c.b = {gen(1, 4, 0), gen(3, 5, 1), gen(1, 6, 2)};
             c.b[1].pt = 0;
+            // the two data packets carry the segmentation bits of a first / last segment in their own flags (as reassembled or
+            // forwarded packets do): frame headers and counters are the same as without them
+            c.b[0].flags = 0x04;
+            c.b[2].flags = 0x0C;
             break;
         case 4: c.mn = 0; c.mx = 64; c.ver = 2; c.b = {gen(3, 11, 0)}; break;
         case 5: c.mn = 64; c.mx = 100; c.b = {gen(1, 150, 0), gen(1, 7, 1)}; break;
@@ -980,7 +1006,7 @@ static CaseSpec encodeArg(int k)
         case 0x30: c.mn = 0; c.mx = 100; c.b = {}; break;   // the empty batch (returns no frames; not in the tree alphabet: dedicated histories of C10)
         case 0x31: c.mn = 64; c.mx = 64; c.b = {}; break;  // the empty batch with a minimum size
         case 13: c.mn = 0; c.mx = 100; c.b = {gen(0, 5, 0), gen(0, 6, 1)}; break;   // message type 0 ("undefined"): no type change opens the first frame
-        case 12: c.mn = 0; c.mx = 1500; c.b = {gen(1, 16, 0), gen(3, 0, 1), gen(1, 16, 2)}; break;   // a zero-length payload between two type changes (emits no message)
+        case 12: c.mn = 0; c.mx = 1500; c.b = {gen(1, 16, 0), gen(3, 0, 1), gen(1, 16, 2)}; c.b[2].flags = 0x08; break;   // a zero-length payload between two type changes (emits no message)
         case 10: c.mn = 0; c.mx = 1500; c.ver = 2; c.b = {gen(1, 6, 0)}; break;       // E0 with another version
         case 11: c.mn = 0; c.mx = 64; c.ver = 1; c.b = {gen(3, 11, 0)}; break;          // E4 with another version
         default: c.mn = 30; c.mx = 48; c.b = {gen(0xFF, 25, 0), gen(1, 24, 1), gen(1, 2, 2)}; c.b[0].pt = 0; break;   // segmented vendor packet of raw type 0xFF00 first
